@@ -38,7 +38,7 @@ Common(fn, on, cn) ==
 Ok(fn, dn, on, cn) == E.exc = "" /\ Common(fn, on, cn) /\ fs' = fn /\ disk' = dn /\ opens' = on /\ closes' = cn
 Refused == E.exc = "IOError" /\ Common(fs, opens, closes) /\ UNCHANGED <<fs, disk, opens, closes>>
 
-Opened(p, m) == [open |-> TRUE, path |-> p, rd |-> CanRead(m), wr |-> CanWrite(m), pos |-> 0, eof |-> FALSE]
+Opened(p, m) == OpenedAt(p, m, IF Truncates(m) THEN <<>> ELSE disk[p])
 
 Init == l = 1 /\ fs = [x \in {} |-> 0] /\ disk = [p \in {1, 2} |-> <<>>] /\ opens = 0 /\ closes = 0
 Reset == IsEv("reset") /\ fs' = [x \in {} |-> 0] /\ disk' = [p \in {1, 2} |-> <<>>] /\ opens' = 0 /\ closes' = 0
@@ -51,7 +51,8 @@ Open == IsEv("open") /\ Ok(With(fs, E.o, Opened(E.a, E.b)), IF Truncates(E.b) TH
 Write == IsEv("write") /\
   IF ~H.open \/ (~H.wr /\ E.b > 0) THEN Refused
   ELSE /\ E.r = (IF E.b = 0 THEN 0 ELSE 1)
-       /\ Ok(With(fs, E.o, [H EXCEPT !.pos = @ + E.b]), [disk EXCEPT ![H.path] = Overwrite(@, H.pos, Pattern(E.a, E.b))], opens, closes)
+       /\ Ok(With(fs, E.o, [H EXCEPT !.pos = (IF E.b = 0 THEN @ ELSE WritePos(H, C) + E.b)]),
+             [disk EXCEPT ![H.path] = Overwrite(@, WritePos(H, @), Pattern(E.a, E.b))], opens, closes)
 Read == IsEv("read") /\
   IF ~H.open THEN Refused
   ELSE LET av == Avail(H, C) n == E.a
@@ -71,7 +72,7 @@ WithBegin == IsEv("withbegin") /\ Ok(fs, disk, opens, closes)
 Del == IsEv("del") /\ Ok(Without(fs, E.o), disk, opens, IF H.open THEN closes + 1 ELSE closes)
 PrintEv == IsEv("print") /\ IF ~H.open THEN Refused
          ELSE /\ E.r = Len(Text(E.a))
-              /\ Ok(With(fs, E.o, [H EXCEPT !.pos = @ + Len(Text(E.a))]), [disk EXCEPT ![H.path] = Overwrite(@, H.pos, Text(E.a))], opens, closes)
+              /\ Ok(With(fs, E.o, [H EXCEPT !.pos = WritePos(H, C) + Len(Text(E.a))]), [disk EXCEPT ![H.path] = Overwrite(@, WritePos(H, @), Text(E.a))], opens, closes)
 RECURSIVE ParseNat(_, _, _)
 ParseNat(c, i, acc) == IF i <= Len(c) /\ c[i] >= 48 /\ c[i] <= 57 THEN ParseNat(c, i + 1, <<acc[1] * 10 + (c[i] - 48), i + 1>>) ELSE acc
 ScanEv == IsEv("scan") /\ IF ~H.open THEN Refused
